@@ -337,7 +337,11 @@ def C05.check (s : Step) : List String :=
     if !s.ok then [] else
     let p := pos s.pre v s.sender
     let p' := pos s.post v s.sender
-    chk (bal s.post s.sender - bal s.pre s.sender == (amt : Int)) "withdraw-wallet-delta" ++
+    -- the wallet receives exactly the requested amount; whatever native coins the caller chose to
+    -- attach to the call stay with the engine (the handler is not payable-aware), so the net change is
+    -- the amount received minus the amount attached
+    chk (bal s.post s.sender - bal s.pre s.sender
+          == (amt : Int) - (if s.pre.engine.cfg.native then (s.funds.amount : Int) else 0)) "withdraw-wallet-delta" ++
     chk ((p'.margin : Int) == (p.margin : Int) - amt - fundingOwed s.pre p) "withdraw-margin-delta" ++
     chk (p'.chk.toInt == (Engine.latestCum s.pre.engine v).toInt) "withdraw-checkpoint-not-moved" ++
     (match exInt (Engine.queryFreeCollateral s.post.q s.post.engine v s.sender) with
